@@ -824,7 +824,13 @@ pub fn c10(big: bool) -> BoxedStrategy<Case> {
         h,
         work: (0..n).map(|i| Step::AddTimer(TimerSpec { kind: if i % 2 == 0 { TimerKind::DelayedExec } else { TimerKind::DelayedSend }, ticks: ticks + i % 7, work: vec![] })).collect(),
     });
-    let op = mixed_ops(base, vec![(8, timer_in_handler.boxed()), (2, congestion.boxed()), (1, many.boxed())]);
+    // a handler that arms a timer and then runs on: longer than any configured handler limit (2..7 ticks),
+    // so with a carry-on timeout the invocation is abandoned after its timer was registered - the timer stays
+    let arm_then_overrun = (h(), any_timer(50), 8u32..=20, any::<bool>()).prop_map(|(h, t, d, call)| {
+        let work = vec![Step::AddTimer(t), Step::Sleep(d)];
+        if call { ClientOp::Call { h, work } } else { ClientOp::Send { h, work } }
+    });
+    let op = mixed_ops(base, vec![(8, timer_in_handler.boxed()), (2, congestion.boxed()), (1, many.boxed()), (3, arm_then_overrun.boxed())]);
     let cause = prop_oneof![
         8 => Just(Cause::None),
         1 => prop_oneof![Just(FailHow::Err), Just(FailHow::Panic)].prop_map(Cause::StartFail),
